@@ -247,7 +247,7 @@ class NPShim:
 
 SHIM = NPShim()
 _PEPIT_MODULES = ["PEPit.pep", "PEPit.point", "PEPit.expression", "PEPit.psd_matrix", "PEPit.function",
-                  "PEPit.tools.expressions_to_matrices", "PEPit.wrappers.mosek_wrapper"]
+                  "PEPit.tools.expressions_to_matrices", "PEPit.wrappers.mosek_wrapper", "PEPit.wrappers.cvxpy_wrapper"]
 
 
 def install():
